@@ -17,6 +17,7 @@ def build(tier):
                             descr='claims are removed only after term_start + term_max has passed', bounds='%d explicit ids' % n, max_paths=60000))
     O.append(Obligation('verifreg.claim_allocations[1 sector x 1]', run_claim([1]), props_claim,
                         descr='claim created with term_start = now, for the calling provider, copying the allocation terms', bounds='1 sector, 1 claim', max_paths=60000))
-    from . import miner_ext
+    from . import miner_ext, miner_formulas
     O += miner_ext.build_for(tier)
+    O += miner_formulas.build_qa(tier)
     return O
